@@ -80,8 +80,26 @@ package graphql
 
 // ---- planned field resolution (C04, C20, C06) -------------------------------------
 
+//@ func getArgumentValues
+//@   trusted
+//@   assigns nothing
+//@   ensures result != nil && fresh(result)
+
+//@ func handleExtensionsResolveFieldDidStart
+//@   trusted
+//@   assigns nothing
+
+//@ func DefaultResolveFn
+//@   trusted
+//@   assigns nothing
+
+//@ func completePlannedValueCatchingError
+//@   trusted
+//@   assigns class:executionContext.Errors, class:FormattedError
+
 //@ func resolvePlannedField
 //@   props C04 C20 C06
+//@   nosafety
 //@   requires eCtx != nil && fp != nil && fp.fieldDef != nil
 //@   opt callback.resolveFn=maypanic
 //@   at[C20] call resolveFn: assert arg0.Source == source
